@@ -1249,10 +1249,12 @@ impl Formatter {
 
     // Join everything
     let mut markdown = String::new();
-    markdown.push_str(&header_line);
-    markdown.push('\n');
-    markdown.push_str(&align_line);
-    markdown.push('\n');
+    if !node.header.is_empty() {
+      markdown.push_str(&header_line);
+      markdown.push('\n');
+      markdown.push_str(&align_line);
+      markdown.push('\n');
+    }
     for line in body_lines {
         markdown.push_str(&line);
         markdown.push('\n');
